@@ -227,6 +227,11 @@ let () =
          if not (drain_check (ni drain) (ni gap) (ni band) (ni slack) dsl (ok = "1") (ni t) fll) then begin
            incr mism;
            Printf.printf "MISMATCH drain %s trigger=%s drain=%s gap=%s ds=%s ok=%s t=%s flags=%s\n" id trig drain gap ds ok t fl
+         end else if not (sres_allowed (z_of_string drain) (if ok = "1" then SOk else STimeout)) then begin
+           (* protocol model (HttpServer.sres_allowed): with DrainTimeout <= 0 stopServer reports the timeout, whatever
+              Shutdown returned - an idle server included *)
+           incr mism;
+           Printf.printf "MISMATCH drain-result %s trigger=%s drain=%s ds=%s ok=%s: the protocol model allows only the timeout for DrainTimeout <= 0\n" id trig drain ds ok
          end
        | _ -> ()
      done
